@@ -11,9 +11,12 @@
       and callee names are dotted ASCII names whose first segment is no reserved word;
     * string literals, raw text, `{css}` names and HTML-tag placeholders are well-formed UTF-8 (the escaper writes
       U+FFFD for a bad byte: the text would still parse, to another string);
-    * no data key `.length` after the first (`$x.length` is written `opt_data.x.length`, which JavaScript — and the
-      reader — takes for the length function: same meaning, another tree; `Img` could be widened by a canonical form
-      on expressions);
+    * a data key `.length` needs no condition any more (`$x.length` is written `opt_data.x.length` and read as the
+      member access; the length FUNCTION is `(x).length` since soyjs 0a4b4eb and only that is read as the function) —
+      except where the VALUE of a `{let $y: …}`, the list of a `{foreach}` or the limit of a `range(…)` is exactly
+      `$v.length` (`isVarLength`): if `$v` is a local variable the statement is `var y$2 = v$1.length;`, the text of the
+      loop statement `varLength` (the length of a LIST; the key `length` of a MAP has another meaning in Spec/JsStmt, so
+      the two are not identified by a canonical form);
     * (`-isNonnull(e)`, `isNonnull(isNonnull(e))`, `{css isNonnull(e), n}` needed excluding before soyjs a5155c6 —
       `e!= null` was a bare comparison, and `{css isNonnull($x), n}` printed `truen` for Go's `true-n`; isNonnull is
       `(e != null)` now and these are in the image);
@@ -25,7 +28,7 @@ namespace SoyVerif.Props.C14d
 open SoyVerif SoyVerif.Spec SoyVerif.Spec.JsParse SoyVerif.Model SoyVerif.Model.JsGen
 open SoyVerif.Spec.JsSemRef (JsExpr Fn1 Fn2)
 open SoyVerif.Props.C04c (toAst accAst loopAst lastAst globalAst fn1Of fn2Of isLoopName sIsNonnull sIj Globals)
-open SoyVerif.Props.C14c (Img lv isNegNum JsName)
+open SoyVerif.Props.C14c (Img lv isNegNum JsName isParenPE plain)
 open SoyVerif.Lemmas.JsParseLex (JsIdent)
 
 /-! ## names -/
@@ -129,23 +132,68 @@ mutual
     | .nil => True
     | .cons a r => AccessJs a ∧ AccJs r
   def AccessJs : Access → Prop
-    | .key _ _ k => JsIdent k ∧ k ≠ sLength
+    | .key _ _ k => JsIdent k
     | _ => True
 end
 
 /-- the string values among the compile-time globals are well-formed UTF-8 -/
 def GlobalsJs [Globals] : Prop := ∀ k s, assocGet? Globals.tbl k = some (.str s) → ValidUtf8 s
 
-/-- the accesses of a data reference: the chain stays a MemberExpression -/
-theorem accAst_img : ∀ (acc : AccessList) (x j : JsExpr), accAst acc x = some j → Img x → lv x = 0 → AccJs acc →
-    Img j ∧ (anyNullSafe acc = false → lv j = 0) ∧ isNegNum j = false ∧ (isNegNum x = false → True)
-  | .nil, x, j, h, hx, hl, _ => by
+/-- how many accesses deep a reference is -/
+def depth : JsExpr → Nat
+  | .member x _ => depth x + 1
+  | .index x _ => depth x + 1
+  | .guard _ r => depth r
+  | _ => 0
+
+def accLen : AccessList → Nat
+  | .nil => 0
+  | .cons _ r => accLen r + 1
+
+theorem accAst_depth : ∀ (acc : AccessList) (x j : JsExpr), accAst acc x = some j → depth x + accLen acc ≤ depth j
+  | .nil, x, j, h => by
+    simp only [accAst, Option.some.injEq] at h
+    subst h; simp [accLen]
+  | .cons (.key _ ns k) rest, x, j, h => by
+    unfold accAst at h
+    split at h
+    · cases h
+    · split at h
+      · cases rest with
+        | nil =>
+          simp only [Option.some.injEq] at h
+          subst h; simp [accLen, depth]
+        | cons _ _ => cases h
+      · have := accAst_depth rest (.member x k) j h
+        simp only [depth, accLen] at this ⊢
+        omega
+  | .cons (.index _ ns i) rest, x, j, h => by
+    unfold accAst at h
+    split at h
+    · cases h
+    · split at h
+      · cases rest with
+        | nil =>
+          simp only [Option.some.injEq] at h
+          subst h; simp [accLen, depth]
+        | cons _ _ => cases h
+      · have := accAst_depth rest (.index x i) j h
+        simp only [depth, accLen] at this ⊢
+        omega
+  | .cons (.expr _ _ _) _, _, _, h => by simp [accAst] at h
+
+/-- the accesses of a data reference: the chain stays a MemberExpression that is not written in parentheses -/
+theorem accAst_img : ∀ (acc : AccessList) (x j : JsExpr), accAst acc x = some j → Img x → lv x = 0 →
+    isParenPE (plain x) = false → AccJs acc →
+    Img j ∧ (anyNullSafe acc = false → lv j = 0) ∧ isNegNum j = false
+  | .nil, x, j, h, hx, hl, _, _ => by
     simp only [accAst, Option.some.injEq] at h
     subst h
-    refine ⟨hx, fun _ => hl, ?_, fun _ => trivial⟩
+    refine ⟨hx, fun _ => hl, ?_⟩
     cases x <;> simp_all [lv, isNegNum]
-  | .cons (.key _ ns k) rest, x, j, h, hx, hl, ha => by
+  | .cons (.key _ ns k) rest, x, j, h, hx, hl, hp, ha => by
     simp only [AccJs, AccessJs] at ha
+    have hm : Img (.member x k) := by simp only [Img]; exact ⟨hx, hl, ha.1, fun _ => hp⟩
     unfold accAst at h
     split at h
     · cases h
@@ -155,35 +203,40 @@ theorem accAst_img : ∀ (acc : AccessList) (x j : JsExpr), accAst acc x = some 
         | nil =>
           simp only [Option.some.injEq] at h
           subst h
-          refine ⟨?_, fun h' => by simp [anyNullSafe, hns] at h', rfl, fun _ => trivial⟩
-          simp only [Img]
-          exact ⟨hx, by omega, hx, hl, ha.1.1, ha.1.2⟩
+          refine ⟨?_, fun h' => by simp [anyNullSafe, hns] at h', rfl⟩
+          simp only [Img] at hm ⊢
+          exact ⟨hx, by omega, hm⟩
         | cons _ _ => cases h
       · rename_i hns
-        have hm : Img (.member x k) := by simp only [Img]; exact ⟨hx, hl, ha.1.1, ha.1.2⟩
-        obtain ⟨h1, h2, h3, _⟩ := accAst_img rest (.member x k) j h hm rfl ha.2
-        refine ⟨h1, fun h' => h2 (by simpa [anyNullSafe, hns] using h'), h3, fun _ => trivial⟩
-  | .cons (.index _ ns i) rest, x, j, h, hx, hl, ha => by
+        obtain ⟨h1, h2, h3⟩ := accAst_img rest (.member x k) j h hm rfl rfl ha.2
+        exact ⟨h1, fun h' => h2 (by simpa [anyNullSafe, hns] using h'), h3⟩
+  | .cons (.index _ ns i) rest, x, j, h, hx, hl, hp, ha => by
     simp only [AccJs] at ha
     unfold accAst at h
     split at h
     · cases h
     · rename_i hi
+      have hm : Img (.index x i) := by simp only [Img]; exact ⟨hx, hl, by omega⟩
       split at h
       · rename_i hns
         cases rest with
         | nil =>
           simp only [Option.some.injEq] at h
           subst h
-          refine ⟨?_, fun h' => by simp [anyNullSafe, hns] at h', rfl, fun _ => trivial⟩
-          simp only [Img]
-          exact ⟨hx, by omega, hx, hl, by omega⟩
+          refine ⟨?_, fun h' => by simp [anyNullSafe, hns] at h', rfl⟩
+          simp only [Img] at hm ⊢
+          exact ⟨hx, by omega, hm⟩
         | cons _ _ => cases h
       · rename_i hns
-        have hm : Img (.index x i) := by simp only [Img]; exact ⟨hx, hl, by omega⟩
-        obtain ⟨h1, h2, h3, _⟩ := accAst_img rest (.index x i) j h hm rfl ha.2
-        refine ⟨h1, fun h' => h2 (by simpa [anyNullSafe, hns] using h'), h3, fun _ => trivial⟩
-  | .cons (.expr _ _ _) _, _, _, h, _, _, _ => by simp [accAst] at h
+        obtain ⟨h1, h2, h3⟩ := accAst_img rest (.index x i) j h hm rfl rfl ha.2
+        exact ⟨h1, fun h' => h2 (by simpa [anyNullSafe, hns] using h'), h3⟩
+  | .cons (.expr _ _ _) _, _, _, h, _, _, _, _ => by simp [accAst] at h
+
+/-- `$v.length` — one plain access `.length` on a variable: as the value of a `{let}` (a loop's list, a range's limit) its
+    text `var x = v$1.length;` is that of the loop statement `varLength` -/
+def isVarLength : Expr → Bool
+  | .dataRef _ _ (.cons (.key _ false k) .nil) => k == JsParse.sLength
+  | _ => false
 
 theorem frame_name {sc : Scope} (hs : ScImg sc) {f : Frame} (hf : f ∈ sc.stack) {k v : Bytes} (h : frameGet? f k = some v) :
     JsName v := by
@@ -191,7 +244,7 @@ theorem frame_name {sc : Scope} (hs : ScImg sc) {f : Frame} (hf : f ∈ sc.stack
   exact e ▸ hs f hf kv hkv
 
 theorem lastAst_img {sc : Scope} (hs : ScImg sc) (f : Frame) (hf : f ∈ sc.stack) (v : Bytes) (j : JsExpr)
-    (h : lastAst f v = some j) : Img j ∧ lv j = 0 := by
+    (h : lastAst f v = some j) : Img j ∧ lv j = 0 ∧ ∀ l, j ≠ .member (.local l) JsParse.sLength := by
   unfold lastAst at h
   cases h1 : frameGet? f (Scope.kStep ++ v) with
   | some step =>
@@ -204,7 +257,7 @@ theorem lastAst_img {sc : Scope} (hs : ScImg sc) (f : Frame) (hf : f ∈ sc.stac
       | some lim =>
         simp only [h2, h3, Option.some.injEq] at h
         subst h
-        exact ⟨by simp only [Img]; exact ⟨frame_name hs hf h2, frame_name hs hf h1, frame_name hs hf h3⟩, rfl⟩
+        exact ⟨by simp only [Img]; exact ⟨frame_name hs hf h2, frame_name hs hf h1, frame_name hs hf h3⟩, rfl, fun l h => by cases h⟩
   | none =>
     simp only [h1] at h
     cases h2 : frameGet? f (Scope.kIndex ++ v) with
@@ -215,10 +268,10 @@ theorem lastAst_img {sc : Scope} (hs : ScImg sc) (f : Frame) (hf : f ∈ sc.stac
       | some lim =>
         simp only [h2, h3, Option.some.injEq] at h
         subst h
-        exact ⟨by simp only [Img]; exact ⟨frame_name hs hf h2, frame_name hs hf h3⟩, rfl⟩
+        exact ⟨by simp only [Img]; exact ⟨frame_name hs hf h2, frame_name hs hf h3⟩, rfl, fun l h => by cases h⟩
 
 theorem loopAst_img {sc : Scope} (hs : ScImg sc) (name : Bytes) (args : ExprList) (j : JsExpr)
-    (h : loopAst sc name args = some j) : Img j ∧ lv j = 0 := by
+    (h : loopAst sc name args = some j) : Img j ∧ lv j = 0 ∧ ∀ l, j ≠ .member (.local l) JsParse.sLength := by
   cases args with
   | nil => simp [loopAst] at h
   | cons a r =>
@@ -234,11 +287,11 @@ theorem loopAst_img {sc : Scope} (hs : ScImg sc) (name : Bytes) (args : ExprList
           split at h
           · simp only [Option.map_eq_some_iff] at h
             obtain ⟨idx, hidx, rfl⟩ := h
-            exact ⟨by simp only [Img]; exact hs.lookup hidx, rfl⟩
+            exact ⟨by simp only [Img]; exact hs.lookup hidx, rfl, fun l h => by cases h⟩
           · split at h
             · simp only [Option.map_eq_some_iff] at h
               obtain ⟨idx, hidx, rfl⟩ := h
-              exact ⟨by simp only [Img]; exact hs.lookup hidx, rfl⟩
+              exact ⟨by simp only [Img]; exact hs.lookup hidx, rfl, fun l h => by cases h⟩
             · simp only [Option.bind_eq_some_iff] at h
               obtain ⟨f, hf, hl⟩ := h
               exact lastAst_img hs f (loopFrame_mem _ _ _ hf) key j hl
@@ -251,32 +304,32 @@ variable [Globals]
     names, is in the image of Props/C14c; and its text stands at the level of a UnaryExpression unless the
     expression is a call of isNonnull -/
 theorem toAst_img (hg : GlobalsJs) (sc : Scope) (hs : ScImg sc) :
-    ∀ (e : Expr) (j : JsExpr), toAst sc e = some j → ExprJs e → Img j ∧ lv j ≤ 1
+    ∀ (e : Expr) (j : JsExpr), toAst sc e = some j → ExprJs e → Img j ∧ lv j ≤ 1 ∧ (isVarLength e = false → ∀ l, j ≠ .member (.local l) JsParse.sLength)
   | .null _, j, h, _ => by
     simp only [toAst, Option.some.injEq] at h; subst h
-    exact ⟨trivial, by simp [lv]⟩
+    exact ⟨trivial, by simp [lv], fun _ l h => by cases h⟩
   | .bool _ b, j, h, _ => by
     simp only [toAst, Option.some.injEq] at h; subst h
-    exact ⟨trivial, by simp [lv]⟩
+    exact ⟨trivial, by simp [lv], fun _ l h => by cases h⟩
   | .int _ v, j, h, _ => by
     simp only [toAst, Option.some.injEq] at h; subst h
-    exact ⟨trivial, by simp [lv]⟩
+    exact ⟨trivial, by simp [lv], fun _ l h => by cases h⟩
   | .str _ _ v, j, h, he => by
     simp only [toAst, Option.some.injEq] at h; subst h
     simp only [ExprJs] at he
-    exact ⟨he, by simp [lv]⟩
+    exact ⟨he, by simp [lv], fun _ l h => by cases h⟩
   | .neg _ a, j, h, he => by
     simp only [toAst, Option.map_eq_some_iff] at h
     obtain ⟨ja, ha, rfl⟩ := h
     simp only [ExprJs] at he
     have ia := toAst_img hg sc hs a ja ha he
-    exact ⟨by simp only [Img]; exact ⟨ia.1, ia.2⟩, by simp [lv]⟩
+    exact ⟨by simp only [Img]; exact ⟨ia.1, ia.2.1⟩, by simp [lv], fun _ l h => by cases h⟩
   | .not _ a, j, h, he => by
     simp only [toAst, Option.map_eq_some_iff] at h
     obtain ⟨ja, ha, rfl⟩ := h
     simp only [ExprJs] at he
     have ia := toAst_img hg sc hs a ja ha he
-    exact ⟨by simp only [Img]; exact ia.1, by simp [lv]⟩
+    exact ⟨by simp only [Img]; exact ia.1, by simp [lv], fun _ l h => by cases h⟩
   | .bin op _ a b, j, h, he => by
     unfold toAst at h
     simp only [ExprJs] at he
@@ -290,8 +343,8 @@ theorem toAst_img (hg : GlobalsJs) (sc : Scope) (hs : ScImg sc) :
         have ib := (toAst_img hg sc hs b jb hjb he.2).1
         cases op <;> simp only [hja, hjb, C04.opOf, Option.some.injEq, reduceCtorEq] at h <;>
           first
-            | (subst h; exact ⟨by simp only [Img]; exact ⟨ia, ib⟩, by simp [lv]⟩)
-            | (subst h; exact ⟨by simp only [Img]; exact ⟨ia, ia, ib⟩, by simp [lv]⟩)
+            | (subst h; exact ⟨by simp only [Img]; exact ⟨ia, ib⟩, by simp [lv], fun _ l h => by cases h⟩)
+            | (subst h; exact ⟨by simp only [Img]; exact ⟨ia, ia, ib⟩, by simp [lv], fun _ l h => by cases h⟩)
             | cases h
   | .tern _ c a b, j, h, he => by
     unfold toAst at h
@@ -308,7 +361,7 @@ theorem toAst_img (hg : GlobalsJs) (sc : Scope) (hs : ScImg sc) :
           simp only [hjc, hja, hjb, Option.some.injEq] at h
           subst h
           exact ⟨by simp only [Img]; exact ⟨(toAst_img hg sc hs c jc hjc he.1).1, (toAst_img hg sc hs a ja hja he.2.1).1,
-            (toAst_img hg sc hs b jb hjb he.2.2).1⟩, by simp [lv]⟩
+            (toAst_img hg sc hs b jb hjb he.2.2).1⟩, by simp [lv], fun _ l h => by cases h⟩
   | .global _ name, j, h, _ => by
     unfold toAst at h
     cases hv : assocGet? Globals.tbl name with
@@ -316,43 +369,102 @@ theorem toAst_img (hg : GlobalsJs) (sc : Scope) (hs : ScImg sc) :
     | some v =>
       simp only [hv] at h
       cases v <;> simp only [globalAst, Option.some.injEq, reduceCtorEq] at h <;> first | cases h | skip
-      · exact ⟨trivial, by simp [lv]⟩
-      · exact ⟨trivial, by simp [lv]⟩
-      · exact ⟨trivial, by simp [lv]⟩
-      · exact ⟨by simp only [Img]; exact hg name _ hv, by simp [lv]⟩
+      · exact ⟨trivial, by simp [lv], fun _ l h => by cases h⟩
+      · exact ⟨trivial, by simp [lv], fun _ l h => by cases h⟩
+      · exact ⟨trivial, by simp [lv], fun _ l h => by cases h⟩
+      · exact ⟨by simp only [Img]; exact hg name _ hv, by simp [lv], fun _ l h => by cases h⟩
   | .dataRef _ key acc, j, h, he => by
     unfold toAst at h
     simp only [ExprJs] at he
     split at h
     · simp only [Option.map_eq_some_iff] at h
       obtain ⟨j0, hacc, rfl⟩ := h
-      obtain ⟨h1, h2, h3, _⟩ := accAst_img acc .ijData j0 hacc trivial rfl he.2
+      obtain ⟨h1, h2, h3⟩ := accAst_img acc .ijData j0 hacc trivial rfl rfl he.2
       cases hn : anyNullSafe acc
       · simp only [Bool.false_eq_true, if_false]
-        exact ⟨h1, by rw [h2 hn]; omega⟩
+        refine ⟨h1, by rw [h2 hn]; omega, ?_⟩
+        intro _ l hj
+        subst hj
+        have hd := accAst_depth acc .ijData _ hacc
+        have hi0 : depth JsExpr.ijData = 0 := rfl
+        simp only [depth] at hd
+        cases acc with
+        | nil => simp [accAst] at hacc
+        | cons a rest =>
+          cases rest with
+          | cons _ _ => simp only [accLen] at hd; omega
+          | nil =>
+            cases a with
+            | key p' ns k =>
+              unfold accAst at hacc
+              split at hacc
+              · cases hacc
+              · split at hacc
+                · cases hacc
+                · simp [accAst] at hacc
+            | index p' ns i =>
+              unfold accAst at hacc
+              split at hacc
+              · cases hacc
+              · split at hacc <;> simp [accAst] at hacc
+            | expr _ _ _ => simp [accAst] at hacc
       · simp only [if_true]
-        exact ⟨by simp only [Img]; exact ⟨h1, h3⟩, by simp [lv]⟩
+        exact ⟨by simp only [Img]; exact ⟨h1, h3⟩, by simp [lv], fun _ l h => by cases h⟩
     split at h
     · cases h
     · simp only [Option.map_eq_some_iff] at h
       obtain ⟨j0, hacc, rfl⟩ := h
       have hbase : Img (match sc.lookup key with | some g => JsExpr.local g | none => JsExpr.optData key) ∧
-          lv (match sc.lookup key with | some g => JsExpr.local g | none => JsExpr.optData key) = 0 := by
+          lv (match sc.lookup key with | some g => JsExpr.local g | none => JsExpr.optData key) = 0 ∧
+          isParenPE (plain (match sc.lookup key with | some g => JsExpr.local g | none => JsExpr.optData key)) = false ∧
+          depth (match sc.lookup key with | some g => JsExpr.local g | none => JsExpr.optData key) = 0 ∧
+          (∀ l, (match sc.lookup key with | some g => JsExpr.local g | none => JsExpr.optData key) ≠ .member (.local l) JsParse.sLength) := by
         cases hl : sc.lookup key with
-        | some g => exact ⟨by simp only [Img]; exact hs.lookup hl, rfl⟩
-        | none => exact ⟨by simp only [Img]; exact he.1, rfl⟩
-      obtain ⟨h1, h2, h3, _⟩ := accAst_img acc _ j0 hacc hbase.1 hbase.2 he.2
+        | some g => exact ⟨by simp only [Img]; exact hs.lookup hl, rfl, rfl, rfl, fun l h => by cases h⟩
+        | none => exact ⟨by simp only [Img]; exact he.1, rfl, rfl, rfl, fun l h => by cases h⟩
+      obtain ⟨h1, h2, h3⟩ := accAst_img acc _ j0 hacc hbase.1 hbase.2.1 hbase.2.2.1 he.2
       cases hn : anyNullSafe acc
       · simp only [Bool.false_eq_true, if_false]
-        exact ⟨h1, by rw [h2 hn]; omega⟩
+        refine ⟨h1, by rw [h2 hn]; omega, ?_⟩
+        intro hv l hj
+        subst hj
+        have hd := accAst_depth acc _ _ hacc
+        have hb0 := hbase.2.2.2.1
+        simp only [depth] at hd
+        cases acc with
+        | nil =>
+          simp only [accAst, Option.some.injEq] at hacc
+          exact hbase.2.2.2.2 l hacc
+        | cons a rest =>
+          cases rest with
+          | cons _ _ => simp only [accLen] at hd; omega
+          | nil =>
+            cases a with
+            | key p' ns k =>
+              unfold accAst at hacc
+              split at hacc
+              · cases hacc
+              · split at hacc
+                · cases hacc
+                · rename_i hns
+                  simp only [accAst, Option.some.injEq, JsExpr.member.injEq] at hacc
+                  have hns' : ns = false := by simpa using hns
+                  subst hns'
+                  simp [isVarLength, hacc.2] at hv
+            | index p' ns i =>
+              unfold accAst at hacc
+              split at hacc
+              · cases hacc
+              · split at hacc <;> simp [accAst] at hacc
+            | expr _ _ _ => simp [accAst] at hacc
       · simp only [if_true]
-        exact ⟨by simp only [Img]; exact ⟨h1, h3⟩, by simp [lv]⟩
+        exact ⟨by simp only [Img]; exact ⟨h1, h3⟩, by simp [lv], fun _ l h => by cases h⟩
   | .func _ name args, j, h, he => by
     unfold toAst at h
     simp only [ExprJs] at he
     split at h
     · have := loopAst_img hs name args j h
-      exact ⟨this.1, by rw [this.2]; omega⟩
+      exact ⟨this.1, by rw [this.2.1]; omega, fun _ => this.2.2⟩
     · cases args with
       | nil => simp at h
       | cons a r =>
@@ -370,11 +482,11 @@ theorem toAst_img (hg : GlobalsJs) (sc : Scope) (hs : ScImg sc) :
               simp only [ArgsJs] at he
               have ia := toAst_img hg sc hs a ja hja he.1
               cases f with
-              | nonNull => exact ⟨by simp only [Img]; exact ⟨ia.1, ia.2⟩, by simp [lv]⟩
-              | length => exact ⟨by simp only [Img]; exact ia.1, by simp [lv]⟩
-              | floor => exact ⟨by simp only [Img]; exact ia.1, by simp [lv]⟩
-              | ceil => exact ⟨by simp only [Img]; exact ia.1, by simp [lv]⟩
-              | round => exact ⟨by simp only [Img]; exact ia.1, by simp [lv]⟩
+              | nonNull => exact ⟨by simp only [Img]; exact ⟨ia.1, ia.2.1⟩, by simp [lv], fun _ l h => by cases h⟩
+              | length => exact ⟨by simp only [Img]; exact ia.1, by simp [lv], fun _ l h => by cases h⟩
+              | floor => exact ⟨by simp only [Img]; exact ia.1, by simp [lv], fun _ l h => by cases h⟩
+              | ceil => exact ⟨by simp only [Img]; exact ia.1, by simp [lv], fun _ l h => by cases h⟩
+              | round => exact ⟨by simp only [Img]; exact ia.1, by simp [lv], fun _ l h => by cases h⟩
         | cons b r2 =>
           cases r2 with
           | nil =>
@@ -393,7 +505,7 @@ theorem toAst_img (hg : GlobalsJs) (sc : Scope) (hs : ScImg sc) :
                   simp only [ArgsJs] at he
                   have ia := toAst_img hg sc hs a ja hja he.1
                   have ib := toAst_img hg sc hs b jb hjb he.2.1
-                  cases f <;> exact ⟨by simp only [Img]; exact ⟨ia.1, ib.1⟩, by simp [lv]⟩
+                  cases f <;> exact ⟨by simp only [Img]; exact ⟨ia.1, ib.1⟩, by simp [lv], fun _ l h => by cases h⟩
           | cons _ _ => simp at h
   | .float _ _, _, h, _ => by simp [toAst] at h
   | .list _ _, _, h, _ => by simp [toAst] at h
@@ -498,11 +610,12 @@ mutual
   def CmdJs : Cmd → Prop
     | .rawText _ t => ValidUtf8 t
     | .print _ arg dirs => ExprJs arg ∧ ∀ d ∈ dirs, DirJs d
-    | .letValue _ x e => JsIdent x ∧ ExprJs e
+    | .letValue _ x e => JsIdent x ∧ ExprJs e ∧ isVarLength e = false
     | .ifc _ conds => (match conds with | .cons _ (some _) _ _ => True | _ => False) ∧ CondsJs conds
     | .forc _ v list body ie =>
-      JsIdent v ∧ ExprJs list ∧
-        (∀ args, isRangeCall list = some args → (∀ l, rangeLimit args = some l → ExprJs l) ∧ ExprJs (rangeInit args)) ∧
+      JsIdent v ∧ (ExprJs list ∧ isVarLength list = false) ∧
+        (∀ args, isRangeCall list = some args →
+          (∀ l, rangeLimit args = some l → ExprJs l ∧ isVarLength l = false) ∧ ExprJs (rangeInit args)) ∧
         BlockJs body ∧ (match ie with | none => True | some b => BlockJs b)
     | .switch _ value cases => ExprJs value ∧ CasesJs cases
     | .letContent _ name body => JsIdent name ∧ BlockJs body
@@ -620,7 +733,8 @@ theorem printDirs_ok (ae : Autoescape) (cancel : Bool) (kept : List Directive) (
   exact key _ hd
 
 theorem foreach_img (names : Bytes × Bytes × Bytes × Bytes) (list : JsExpr) (body : JsStmts) (ie : Option JsStmts)
-    (n1 : JsName names.1) (n2 : JsName names.2.1) (n3 : JsName names.2.2.1) (n4 : JsName names.2.2.2) (hl : Img list)
+    (n1 : JsName names.1) (n2 : JsName names.2.1) (n3 : JsName names.2.2.1) (n4 : JsName names.2.2.2)
+    (hl : Img list ∧ ∀ l, list ≠ .member (.local l) JsParse.sLength)
     (hb : ImgSs body) (hie : ∀ x, ie = some x → ImgSs x) : ImgSs (foreachStmts names list body ie) := by
   cases ie with
   | none =>
@@ -632,7 +746,9 @@ theorem foreach_img (names : Bytes × Bytes × Bytes × Bytes) (list : JsExpr) (
 
 theorem range_img (names : Bytes × Bytes × Bytes × Bytes) (limit init incr : JsExpr) (body : JsStmts)
     (n1 : JsName names.1) (n2 : JsName names.2.1) (n3 : JsName names.2.2.1) (n4 : JsName names.2.2.2)
-    (h1 : Img limit) (h2 : Img init) (h3 : Img incr) (hb : ImgSs body) : ImgSs (rangeStmts names limit init incr body) := by
+    (h1 : Img limit ∧ ∀ l, limit ≠ .member (.local l) JsParse.sLength) (h2 : Img init)
+    (h3 : Img incr ∧ ∀ l, incr ≠ .member (.local l) JsParse.sLength) (hb : ImgSs body) :
+    ImgSs (rangeStmts names limit init incr body) := by
   simp only [rangeStmts, JsStmts.one, ImgSs, ImgS]
   exact ⟨⟨n2, h1⟩, ⟨n3, h3⟩, ⟨n1, n2, n3, n4, h2, hb⟩, trivial⟩
 
@@ -694,7 +810,8 @@ mutual
         · rename_i j hj
           simp only [Option.some.injEq] at h; subst h
           have mv := hs.makevar x hc.1
-          exact ⟨imgSs_one _ (by simp only [ImgS]; exact ⟨mv.1, (toAst_img hg sc hs e j hj hc.2).1⟩), mv.2⟩
+          have ij := toAst_img hg sc hs e j hj hc.2.1
+          exact ⟨imgSs_one _ (by simp only [ImgS]; exact ⟨mv.1, ij.1, ij.2.2 hc.2.2⟩), mv.2⟩
         · cases h
     | .ifc p conds, buf, sc, r, h, hs, hb, hc => by
       simp only [CmdJs] at hc
@@ -732,14 +849,14 @@ mutual
         · obtain ⟨_, _, j, rbv, hj, hrb, hr⟩ := forcJoin_some h1
           simp only at hr; subst hr
           have ib := toBody_img body buf _ rbv hrb pe.2.2.2.2 hb hbody
-          exact ⟨foreach_img _ j rbv.1 none pe.1 pe.2.1 pe.2.2.1 pe.2.2.2.1 (toAst_img hg sc hs list j hj hl).1 ib.1
+          exact ⟨foreach_img _ j rbv.1 none pe.1 pe.2.1 pe.2.2.1 pe.2.2.2.1 (have ij := toAst_img hg sc hs list j hj hl.1; ⟨ij.1, ij.2.2 hl.2⟩) ib.1
             (fun _ h => by cases h), ib.2.pop⟩
         · obtain ⟨_, _, args, l, c, jl, ji, rbv, p', hra, hlim, hinc, hpos, hjl, hji, hrb, hr⟩ := rangeJoin_some h1
           subst hr
           have ib := toBody_img body buf _ rbv hrb pr.2.2.2.2 hb hbody
           have hr' := hrange args hra
-          exact ⟨range_img _ jl ji (.num c) rbv.1 pr.1 pr.2.1 pr.2.2.1 pr.2.2.2.1 (toAst_img hg sc hs l jl hjl (hr'.1 l hlim)).1
-            (toAst_img hg sc hs _ ji hji hr'.2).1 trivial ib.1, ib.2.pop⟩
+          exact ⟨range_img _ jl ji (.num c) rbv.1 pr.1 pr.2.1 pr.2.2.1 pr.2.2.2.1 (have ij := toAst_img hg sc hs l jl hjl (hr'.1 l hlim).1; ⟨ij.1, ij.2.2 (hr'.1 l hlim).2⟩)
+            (toAst_img hg sc hs _ ji hji hr'.2).1 ⟨trivial, fun l h => by cases h⟩ ib.1, ib.2.pop⟩
       | some ieb =>
         simp only [CmdJs] at hc
         obtain ⟨hv, hl, hrange, hbody, hie⟩ := hc
@@ -753,7 +870,7 @@ mutual
           subst hr
           have ib := toBody_img body buf _ rbv hrb pe.2.2.2.2 hb hbody
           have ie' := toBlock_img ieb buf _ re hre ib.2.pop hb hie
-          exact ⟨foreach_img _ j rbv.1 (some re.1) pe.1 pe.2.1 pe.2.2.1 pe.2.2.2.1 (toAst_img hg sc hs list j hj hl).1 ib.1
+          exact ⟨foreach_img _ j rbv.1 (some re.1) pe.1 pe.2.1 pe.2.2.1 pe.2.2.2.1 (have ij := toAst_img hg sc hs list j hj hl.1; ⟨ij.1, ij.2.2 hl.2⟩) ib.1
             (fun x h => by cases h; exact ie'.1), ie'.2⟩
         · obtain ⟨_, _, args, l, c, jl, ji, rbv, p', hra, hlim, hinc, hpos, hjl, hji, hrb, hr0⟩ := rangeJoin_some h1
           subst hr0
@@ -762,7 +879,7 @@ mutual
           have hr' := hrange args hra
           have ie' := toBlock_img ieb buf _ re hre ib.2.pop hb hie
           refine ⟨imgSs_append _ _ (range_img _ jl ji (.num c) rbv.1 pr.1 pr.2.1 pr.2.2.1 pr.2.2.2.1
-            (toAst_img hg sc hs l jl hjl (hr'.1 l hlim)).1 (toAst_img hg sc hs _ ji hji hr'.2).1 trivial ib.1)
+            (have ij := toAst_img hg sc hs l jl hjl (hr'.1 l hlim).1; ⟨ij.1, ij.2.2 (hr'.1 l hlim).2⟩) (toAst_img hg sc hs _ ji hji hr'.2).1 ⟨trivial, fun l h => by cases h⟩ ib.1)
             (imgSs_one _ (by simp only [ImgS]; exact ⟨pr.2.2.2.1, ie'.1⟩)), ie'.2⟩
     | .switch p value cases, buf, sc, r, h, hs, hb, hc => by
       simp only [CmdJs] at hc
@@ -798,7 +915,7 @@ mutual
       · rename_i j hj
         simp only [Option.some.injEq] at h; subst h
         have ij := toAst_img hg sc hs e j hj hc.2
-        exact ⟨by simp only [ImgSs, ImgS, JsStmts.one]; exact ⟨⟨hb, ij.1, ij.2⟩, ⟨hb, hc.1⟩, trivial⟩, hs⟩
+        exact ⟨by simp only [ImgSs, ImgS, JsStmts.one]; exact ⟨⟨hb, ij.1, ij.2.1⟩, ⟨hb, hc.1⟩, trivial⟩, hs⟩
       · cases h
     | .debugger p, buf, sc, r, h, hs, _, _ => by
       simp only [toCmd, Option.some.injEq] at h; subst h
@@ -982,8 +1099,8 @@ end
   first condition, `{else}` last; a file is a namespace and soydoc / template pairs), that names after `$`, `.` and in
   `{let}` / `{foreach}` / `{param}` are identifiers — but of LETTERS, which for the Go lexer includes letters outside
   ASCII (the generator copies them: Props/C14 `IsIdent`; here `JsIdent` asks for ASCII, the alphabet of Spec/JsParse).
-  NOT guaranteed, and asked here: well-formed UTF-8 in raw text and string literals; no data key `length` behind a
-  `.`; the first segment of a template's or
+  NOT guaranteed, and asked here: well-formed UTF-8 in raw text and string literals; no `{let}` value / loop list /
+  range limit that is exactly `$v.length`; the first segment of a template's or
   callee's dotted name is no JavaScript reserved word (Soy has no such rule: `{namespace var.x}` is accepted — real
   soyjs then writes `var.x = …`, no JavaScript).  Variable names need no such condition: the generator appends `$n`.
   Outside the fragment altogether (`toFile = none`): floats, list / map literals, `[e]` accesses, a null-safe access
@@ -1113,18 +1230,23 @@ theorem exFile_js : FileJs exFile := by
   obtain ⟨⟨_, rfl, _⟩, rfl⟩ := hb
   refine ⟨qOkB_ok (by decide), ?_⟩
   simp only [TopJs, BlockJs, CmdsJs, CmdJs, CondsJs, ExprJs, AccJs, AccessJs, DirJs, isRangeCall, and_true, true_and]
-  refine ⟨qOkB_ok (by decide), ⟨⟨identB_ok (by decide), identB_ok (by decide), by decide⟩, ?_⟩, ascii_valid _ (by decide), ?_⟩
-  · intro d hd a ha j hj
-    simp only [List.mem_singleton] at hd
-    subst hd
-    simp only [List.mem_singleton] at ha
-    subst ha
-    simp only [litAst, Option.some.injEq] at hj
-    subst hj
-    trivial
-  · refine ⟨identB_ok (by decide), identB_ok (by decide), ⟨identB_ok (by decide), identB_ok (by decide), by decide⟩, ?_, ?_⟩
-    · intro args h; cases h
-    · exact ⟨identB_ok (by decide), fun d hd => by cases hd⟩
+  repeat' apply And.intro
+  all_goals first
+    | exact identB_ok (by decide)
+    | exact qOkB_ok (by decide)
+    | exact ascii_valid _ (by decide)
+    | rfl
+    | (intro args h; cases h; done)
+    | (intro d hd; cases hd; done)
+    | skip
+  intro d hd a ha j hj
+  simp only [List.mem_singleton] at hd
+  subst hd
+  simp only [List.mem_singleton] at ha
+  subst ha
+  simp only [litAst, Option.some.injEq] at hj
+  subst hj
+  trivial
 
 local instance : Globals := ⟨[]⟩
 local instance : C04c.GlobalsAre ({} : Options) := ⟨rfl⟩
@@ -1147,8 +1269,10 @@ example : ∃ r ps s', toFile exFile = some r ∧ visitSoyFile id {} exFile init
     exact ⟨r, ps, s', rfl, h1, h2⟩
 
 -- the shapes the naming conditions exclude
-example : ¬ ExprJs (.dataRef 0 b!"x" (.cons (.key 0 false b!"length") .nil)) := by
-  simp [ExprJs, AccJs, AccessJs, sLength]
+-- the data key `length` is in the fragment (soyjs writes `opt_data.x.length`; the length FUNCTION is `(opt_data.x).length`)
+example : ExprJs (.dataRef 0 b!"x" (.cons (.key 0 false b!"length") .nil)) := by
+  simp only [ExprJs, AccJs, AccessJs, and_true]
+  exact ⟨identB_ok (by decide), identB_ok (by decide)⟩
 
 end Examples
 
